@@ -35,12 +35,13 @@ def check_site(ctx, S):
     kindL, L, red, _ = _rej.normaliser(S.acc["arg"])
     # positions in L must be evaluation positions: L is the unfiltered result of the likelihood evaluation (or its accumulation)
     if L is not None:
+        whyL = None
         if S.iterative:
-            okL = isinstance(L, ast.Call) and (A.call_name(L) or "").split(".")[-1] == "concatenate" and "@loop" in A.unparse(L)
+            okL, whyL = _rej.accum_unfiltered(L)
         else:
             okL = isinstance(L, ast.Call) and (A.call_name(L) or "").split(".")[-1].startswith("marginal_ln_likelihood")
         ctx.check(R, S.acc_stmt, "%s: accepted positions are evaluation positions (likelihood array not filtered / compacted)" % q, okL,
-                  "the accepted positions index `%s`, a filtered or re-indexed copy of the evaluated likelihoods: they no longer address the rows / ln_prior values of the library" % A.unparse(L)[:70], key=q + ":space-L")
+                  whyL or "the accepted positions index `%s`, a filtered or re-indexed copy of the evaluated likelihoods: they no longer address the rows / ln_prior values of the library" % A.unparse(L)[:70], key=q + ":space-L")
     shapes = _rej.idx_shape(Rsel)
     # G versions used to build the samples (per IfExp leaf)
     def g_of(shape):
@@ -183,6 +184,56 @@ def check_api(ctx):
     ctx.floor(R, n, 4)
 
 
+def check_inmem_api(ctx):
+    R = "C06-INMEM"
+    ctx.rule(R, "in-memory API path: the packed array handed to rejection_sample_inmem / iterative_rejection_inmem is P.pack(units=H.internal_units, names=H.packed_order)[0] of the "
+                "library object P exactly as given (no permutation, no slicing: the accepted positions index both this array and ln_prior), and the ln_prior handed over is "
+                "P['ln_prior'] of the same object (or None / the caller's flag).")
+    TJ = "thejoker.thejoker"
+    n = 0
+    for meth, callee in (("TheJoker.rejection_sample", "rejection_sample_inmem"), ("TheJoker.iterative_rejection_sample", "iterative_rejection_inmem")):
+        fn = ctx.prog.func(TJ, meth, R)
+        fl = A.Flow(fn)
+        cs = [c for c in A.calls_in(fn) if A.call_name(c) == callee]
+        if len(cs) != 1:
+            ctx.undecided(R, fn, "%s call" % callee, "expected one call, found %d" % len(cs))
+            continue
+        c = cs[0]
+        st = A.enclosing_stmt(c)
+        batch = A.get_arg(c, 1, "prior_samples_batch")
+        lp = A.get_arg(c, None, "ln_prior")
+        if batch is None:
+            ctx.undecided(R, c, "%s: packed batch argument" % meth, "not found")
+            continue
+        n += 1
+        owners = set()
+        ok = True
+        why = ""
+        for terms, leaf in A.ifexp_terms(fl.resolve(batch, at=st)):
+            core = A.strip_casts(leaf)
+            if isinstance(core, ast.Subscript) and A.const_value(core.slice) == 0 and isinstance(core.value, ast.Call) and A.last_attr(core.value) == "pack":
+                owners.add(canon(core.value.func.value))
+                continue
+            if any(isinstance(x, ast.Call) and A.last_attr(x) in ("permutation", "shuffle", "choice", "argsort", "sort") for x in ast.walk(core)) or \
+                    (isinstance(core, ast.Subscript) and any(isinstance(x, ast.Call) and A.last_attr(x) == "pack" for x in ast.walk(core))):
+                ok = False
+                why = "the packed library is re-ordered / cut (`%s`) after ln_prior was taken from the object: accepted positions pair a row with another row's ln_prior" % A.unparse(core)[:90]
+            # otherwise: the caller's own array (documented escape hatch)
+        ctx.check(R, c, "%s: the packed library reaches the sampler in the object's row order" % meth, ok, why, key=meth + ":batch")
+        if lp is not None:
+            okl = True
+            whyl = ""
+            for terms, leaf in A.ifexp_terms(fl.resolve(lp, at=st)):
+                if isinstance(leaf, ast.Constant) or canon(leaf) == "return_logprobs":
+                    continue
+                if isinstance(leaf, ast.Subscript) and A.str_const(leaf.slice) == "ln_prior" and (not owners or canon(leaf.value) in owners):
+                    continue
+                okl = False
+                whyl = "ln_prior handed over is `%s`, not the ln_prior column of the object that was packed" % A.unparse(leaf)[:80]
+            ctx.check(R, c, "%s: ln_prior comes from the same object, in the same order" % meth, okl, whyl, key=meth + ":ln_prior")
+    ctx.floor(R, n, 2)
+
+
 def run(ctx):
     ctx.rule("C06-SPACE", "index-space typing: the ln_likelihood column is L[G] with L the array the acceptance used and G the accepted positions after the same "
                           "truncation that built the rows; the ln_prior column is read at the library rows R that built the samples (R = G or R = M[G]).")
@@ -194,6 +245,7 @@ def run(ctx):
         check_site(ctx, S)
         n += 1
     ctx.floor("C06-SPACE", n, 4)
+    check_inmem_api(ctx)
     ctx.rule("C06-ROWS", "make_full_samples / make_full_samples_inmem hand the caller's row index to the kernel unmodified and unpack the kernel rows in task order "
                          "(otherwise rows come back in another order than the log-prob columns).")
     from .C02 import check_passthrough
